@@ -118,12 +118,36 @@ def _next_lz_scalar(curve: str, d: int, which: str) -> int:
             pt = c.add(pt, c.G)
 
 
+# first bytes that other key containers start with: DER SEQUENCE, PEM dashes, SEC1 point prefixes
+_MAGIC_TOPS = (0x30, 0x2D, 0x04, 0x02, 0x03)
+
+
+@functools.lru_cache(maxsize=None)
+def _next_magic_scalar(curve: str, d: int, top_byte: int) -> int:
+    """Smallest d' >= d (cyclically) whose public X starts with the given byte (so that the raw x||y form of the key
+    begins like another container format).  Only for curves whose coordinates fill their bytes (P-256, P-384)."""
+    c = pk.CURVES[curve]
+    shift = 8 * (c.size - 1)
+    pt = c.mul(d, c.G)
+    while True:
+        if pt[0] >> shift == top_byte:
+            return d
+        d += 1
+        if d >= c.n:
+            d, pt = 1, c.G
+        else:
+            pt = c.add(pt, c.G)
+
+
 def _ec_scalars(curve: str, lz_share: float):
     n = pk.CURVES[curve].n
     plain = st.integers(1, n - 1)
     lz = st.tuples(st.integers(1, n - 1), st.sampled_from(["x", "y", "any"])).map(lambda t: _next_lz_scalar(curve, t[0], t[1]))
     k = max(1, round(1 / lz_share) - 1)
-    return st.one_of(*([plain] * k), lz)
+    alts = [plain] * k + [lz]
+    if curve in ("secp256r1", "secp384r1"):
+        alts.append(st.tuples(st.integers(1, n - 1), st.sampled_from(_MAGIC_TOPS)).map(lambda t: _next_magic_scalar(curve, t[0], t[1])))
+    return st.one_of(*alts)
 
 
 def _ec_key_desc(lz_share: float = 0.25):
@@ -325,6 +349,8 @@ def run_ec_keys(case, o: Oracle) -> None:
     top = _lz_top(curve)
     lz = x < (1 << top) or y < (1 << top)
     o.label("part:ec_keys", "curve:" + curve, _pw_label(pw))
+    if raw_want[0] in _MAGIC_TOPS:
+        o.label("raw_starts_like_other_format", "raw_top:%02x" % raw_want[0])
     if lz:
         o.label("lz_coord", "lz_x" if x < (1 << top) else "lz_y")
     if d < (1 << top):
